@@ -405,7 +405,7 @@ gsm610_seek	(SF_PRIVATE *psf, int UNUSED (mode), sf_count_t offset)
 		return 0 ;
 		} ;
 
-	if (offset < 0 || offset > pgsm610->blocks * pgsm610->samplesperblock)
+	if (offset < 0 || offset > (sf_count_t) pgsm610->blocks * pgsm610->samplesperblock)
 	{	psf->error = SFE_BAD_SEEK ;
 		return	PSF_SEEK_ERROR ;
 		} ;
@@ -414,14 +414,14 @@ gsm610_seek	(SF_PRIVATE *psf, int UNUSED (mode), sf_count_t offset)
 	newsample	= offset % pgsm610->samplesperblock ;
 
 	if (psf->file.mode == SFM_READ)
-	{	if (psf->read_current != newblock * pgsm610->samplesperblock + newsample)
-		{	psf_fseek (psf, psf->dataoffset + newblock * pgsm610->samplesperblock, SEEK_SET) ;
+	{	if (psf->read_current != (sf_count_t) newblock * pgsm610->samplesperblock + newsample)
+		{	psf_fseek (psf, psf->dataoffset + (sf_count_t) newblock * pgsm610->samplesperblock, SEEK_SET) ;
 			pgsm610->blockcount = newblock ;
 			pgsm610->decode_block (psf, pgsm610) ;
 			pgsm610->samplecount = newsample ;
 			} ;
 
-		return newblock * pgsm610->samplesperblock + newsample ;
+		return (sf_count_t) newblock * pgsm610->samplesperblock + newsample ;
 		} ;
 
 	/* What to do about write??? */
